@@ -5,6 +5,7 @@ use std::io::{self, BufRead, Write};
 mod merge;
 mod backup;
 mod copy;
+mod paths;
 
 fn main() {
     let args: Vec<String> = std::env::args().collect();
@@ -42,6 +43,12 @@ fn main() {
             for line in stdin.lock().lines() {
                 let line = line.unwrap();
                 writeln!(out, "{}", backup::nextnum_line(&args[2], &line)).unwrap();
+            }
+        }
+        "paths" => {
+            for line in stdin.lock().lines() {
+                let line = line.unwrap();
+                writeln!(out, "{}", paths::paths_line(&line)).unwrap();
             }
         }
         "copy" => {
